@@ -32,7 +32,7 @@ def run_entry(entry, argv, cwd, np_=1, choices=None, seams=(), clock=None, keep_
     sim = None
     if np_ > 1:
         sim = ProcSim(choices or core.Choices(given=[]), step_cap=step_cap,
-                      keep_log=keep_log)
+                      keep_log=keep_log, isolate=core.ISOLATE)
     res = {"outcome": None, "exc": None, "msg": None}
     with contextlib.ExitStack() as st:
         st.enter_context(workloads.env_seams())
